@@ -6,12 +6,17 @@ VARIABLE x
 Init == x = 0
 Next == UNCHANGED x
 \* a prefix the readers accept must serve exactly what the complete file serves
-PrefixOK(full, p) == p.acc = 1 => (p.chroms = full.chroms /\ p.read = full.read /\ p.zooms = full.zooms)
+Serves(v, p) == p.chroms = v.chroms /\ p.read = v.read /\ p.zooms = v.zooms
+PrefixOK(full, p) == p.acc = 1 => Serves(full, p)
+\* the destination held another complete file before (o.stale = 1, o.obs.stale = what that file served): an accepted crash image serves
+\* exactly the new file, or still exactly the old one - never a mixture
+PrefixOKStale(o, p) == p.acc = 1 => (Serves(o.obs.full, p) \/ (o.obs.stale.acc = 1 /\ Serves(o.obs.stale, p)))
 Verdict(o) ==
   IF o.mode = "record" THEN
      IF o.obs.result # "ok" THEN "write-failed"
      ELSE IF o.obs.full.acc # 1 THEN "complete-file-rejected"
-     ELSE IF \E i \in 1..Len(o.obs.prefixes) : ~PrefixOK(o.obs.full, o.obs.prefixes[i]) THEN "partial-file-accepted-with-data-missing"
+     ELSE IF "stale" \in DOMAIN o /\ o.stale = 1 /\ \E i \in 1..Len(o.obs.prefixes) : ~PrefixOKStale(o, o.obs.prefixes[i]) THEN "old-and-new-file-mixed"
+     ELSE IF ~("stale" \in DOMAIN o /\ o.stale = 1) /\ \E i \in 1..Len(o.obs.prefixes) : ~PrefixOK(o.obs.full, o.obs.prefixes[i]) THEN "partial-file-accepted-with-data-missing"
      ELSE "ok"
   ELSE IF o.mode = "refused" THEN
      \* an input refused part-way (o.valid = the records before the offending one, o.vchroms their chromosome table): whatever the
